@@ -122,6 +122,22 @@ def check_config(cfg, w, rep):
     # ---- (f) a pre-allocated temp file never reaches publication longer than what was written ----
     check_preallocation(cfg, w, rep)
 
+    # ---- (g) what is published under an address is the data whose digest it is: the staged bytes and the digest input
+    #      agree (C02 a: the digest is fed exactly what the sink accepted, every sink write is digested) and the rename
+    #      target is content_path(cache, that digest) (C02 d) ----
+    from ..framework import Report
+    from . import c02
+    sub = Report("C02")
+    c02.check_config(cfg, w, sub)
+    G = ("a-digest-sink", "a-whole-sink", "d-address")
+    for (c_, rule, k, desc, ok) in sub.obligations:
+        if rule in G and ok:
+            rep.ob(cfg, "g/" + rule, k, desc)
+    for k, v in sub.violations.items():
+        if v.rule in G:
+            rep.violation("g:%s" % k, "a file could be published under an address that is not the digest of its bytes — " + v.msg,
+                          loc=v.loc, config=cfg, rule="g/" + v.rule, witness=v.witness)
+
     # ---- (e) a failed publication is an error unless the destination is shown to exist ----
     for p in w.roles.content_closes:
         lf = prog.fns[p]
